@@ -17,7 +17,8 @@ import Asn1cModel.Props.C09
       `_search4tag` finds exactly the member that carries the tag;
   (c) oms lists exactly the OPTIONAL/DEFAULT root members, ascending, = the L2 attributes;
   (d) the PER record of INTEGER (l..u[,...]) is the X.691 layout the UPER reference codec uses:
-      constrained, lb = l, ub = u, range_bits = ⌈log2(u−l+1)⌉, extensible flag as written.
+      constrained, lb = l, ub = u, range_bits = ⌈log2(u−l+1)⌉, extensible flag as written;
+  (e) the element type of SEQUENCE OF / SET OF: a written tag is resolved like a component's tag.
 -/
 namespace Asn1c.Props.C10Compile
 open Asn1c Asn1c.L2 Asn1c.Impl.BerTlv Asn1c.Impl.CompileDescr
@@ -331,20 +332,40 @@ theorem size_per_record (c : Impl.CompileDescr.Cons) (l u : Int) (hlo : c.lo = s
 
 end per
 
-/-! ## what the theorems do not cover: the element type of SEQUENCE OF / SET OF -/
+/-! ## (e) the element type of SEQUENCE OF / SET OF -/
 
-/-- the fixer only decides the tag modes of the components of SEQUENCE / SET / CHOICE and of top-level types.  A tag
-    written on the element type of SEQUENCE OF / SET OF keeps TM_DEFAULT, which `asn1f_fetch_tags` / `emit_member_table`
-    treat as EXPLICIT whatever the module default says: in an IMPLICIT TAGS module the member table of
-    `SEQUENCE OF [1] INTEGER` carries tag_mode +1 where X.680 §31.2.7 (and the L2 resolver) says IMPLICIT. -/
+/-- **element of SEQUENCE OF / SET OF**: the fixer decides the tag mode of a tag written on the element type like
+    that of a component (module default, X.680 §31.2.7), so the chain of the element in the generated tables is the
+    tag list of the element as `L2.resolveTy` resolves it (the former finding F122: the tag kept TM_DEFAULT, which
+    the emitters read as EXPLICIT whatever the module said) -/
+theorem compiled_element_tags_eq_resolved (M : Module) (htd : ValidTagDefault M) (k : Nat) (hk : k ≤ 64)
+    (tag : Option WTag) (q : Bool) (sz : Option Cons) (e : CTy) (e' : Ty) (h : toL2 M k e = some e') :
+    ∃ e1, fixTy M (.listOf tag q sz e) = .listOf tag q sz e1 ∧ tagsOf (fixModule M) e1 = tyTags e' := by
+  refine ⟨fixTop M e, ?_, compiled_tags_eq_resolved M htd e e' k hk h⟩
+  simp only [fixTy, fixTop]
+
+/-- the former witness of F122: `L ::= SEQUENCE OF [1] INTEGER` in an IMPLICIT TAGS module -/
 def cexModule : Module := ⟨"IMPLICIT", [("L", .listOf none true none (.integer (some ⟨⟨2, 1⟩, .dflt⟩) none))]⟩
 
-theorem seqof_element_default_tag_cex :
+/-- … its member table now carries tag_mode −1 and the element's chain is `[1]` alone, the tag list of the resolved
+    element (the unrepaired fixer left tag_mode +1 and the chain `[1] [UNIVERSAL 2]`) -/
+theorem seqof_element_default_tag :
     (match fixTop cexModule (.listOf none true none (.integer (some ⟨⟨2, 1⟩, .dflt⟩) none)) with
-     | .listOf _ _ _ e => (memberMode e, tagsOf (fixModule cexModule) e)
-     | _ => (0, [])) = (1, [⟨2, 1⟩, ⟨0, 2⟩]) ∧
+     | .listOf _ _ _ e => (memberMode (fixModule cexModule) {} e, tagsOf (fixModule cexModule) e)
+     | _ => (0, [])) = (-1, [⟨2, 1⟩]) ∧
     (toL2 cexModule 64 (.integer (some ⟨⟨2, 1⟩, .dflt⟩) none)).map tyTags = some [⟨2, 1⟩] := by
   constructor <;> decide
+
+/-- the former witness of F49: `[5] EXPLICIT ENUMERATED { x, y }` as a member has a descriptor of its own whose `tags`
+    are `[5] [UNIVERSAL 10]`; the member table says tag_mode 0 (it said +1: the explicit tag was written twice).
+    With an IMPLICIT tag the descriptor's tags are `[5]` and the member keeps −1 (the first tag replaced by itself). -/
+theorem own_descriptor_member_mode :
+    let M : Module := ⟨"none", []⟩
+    let e : CTy := .enumerated (some ⟨⟨2, 5⟩, .exp⟩) [0, 1] none
+    let i : CTy := .enumerated (some ⟨⟨2, 5⟩, .imp⟩) [0, 1] none
+    (memberMode M {} e, tagsOf M e, complexContents M {} e) = (0, [⟨2, 5⟩, ⟨0, 10⟩], true) ∧
+    (memberMode M {} i, tagsOf M i) = (-1, [⟨2, 5⟩]) := by
+  decide
 
 /-! ## `first_extension` of a SEQUENCE (finding F120 repaired) -/
 
